@@ -174,7 +174,22 @@ def r10_4(ctx) -> None:
     cp = v.pos_params[1]
     # essential_keys = keys whose option has a truthy "essential"
     ek = [n for n in fn_nodes(init) if isinstance(n, ast.Assign) and norm(n.targets[0]) == f"{init.self_name}.essential_keys"]
-    ok1 = len(ek) == 1 and isinstance(ek[0].value, ast.SetComp) and "essential" in norm(ek[0].value) and norm(ek[0].value.generators[0].iter) == "kwargs"
+    ok1 = False
+    if len(ek) == 1:
+        v_ = ek[0].value
+        if isinstance(v_, ast.Call) and isinstance(v_.func, ast.Name) and v_.func.id in ("set", "frozenset") and len(v_.args) == 1 and isinstance(v_.args[0], (ast.GeneratorExp, ast.ListComp)):
+            v_ = v_.args[0]
+        if isinstance(v_, (ast.SetComp, ast.GeneratorExp, ast.ListComp)) and len(v_.generators) == 1 and len(v_.generators[0].ifs) == 1:
+            g_ = v_.generators[0]
+            it_ = norm(g_.iter)
+            kp = init.node.args.kwarg.arg if init.node.args.kwarg else "kwargs"
+            cond_ = norm(g_.ifs[0])
+            if it_ == kp and isinstance(g_.target, ast.Name):
+                k_ = g_.target.id
+                ok1 = norm(v_.elt) == k_ and cond_ in (f"{kp}[{k_}].get('essential')", f"{kp}[{k_}]['essential']", f"{kp}.get({k_}).get('essential')")
+            elif it_ == f"{kp}.items()" and isinstance(g_.target, ast.Tuple) and len(g_.target.elts) == 2 and all(isinstance(e_, ast.Name) for e_ in g_.target.elts):
+                k_, o_ = g_.target.elts[0].id, g_.target.elts[1].id
+                ok1 = norm(v_.elt) == k_ and cond_ in (f"{o_}.get('essential')", f"{o_}['essential']")
     ctx.check(ok1, "R10.4", init, ek[0] if ek else init.node, f"{init.short} :: essential_keys", "essential_keys is not the set of claims whose option has a truthy `essential`",
               "{key for key in kwargs if kwargs[key].get('essential')}", construct="essential_keys")
     cfg = cfg_of(v)
